@@ -49,7 +49,7 @@ def make_model(rng):
             if t["name"] not in BUILTIN_SCALARS: defs.append({"kind": "scalar", "name": t["name"]})
             continue
         if k == "enum":
-            vals = [{"name": v, "deprecated": (rng.choice(["No longer supported", "use other", ""]) if rng.random() < 0.2 else None)} for v in t["values"]]
+            vals = [{"name": v, "deprecated": (rng.choice(["No longer supported", "use other", "", "see C:\\notes\\told you", "say \"no\" \\\"twice\\\""]) if rng.random() < 0.2 else None)} for v in t["values"]]
             cut = rng.randint(1, len(vals)) if rng.random() < 0.4 else len(vals)
             defs.append({"kind": "enum", "name": t["name"], "values": vals[:cut]})
             if cut < len(vals): exts.append({"kind": "enum", "name": t["name"], "values": vals[cut:]})
@@ -57,7 +57,7 @@ def make_model(rng):
             fields = []
             for f in t["fields"]:
                 fields.append({"name": f["name"], "args": f["args"], "type": f["type"],
-                               "deprecated": (rng.choice(["No longer supported", "old field", ""]) if rng.random() < 0.15 else None),
+                               "deprecated": (rng.choice(["No longer supported", "old field", "", "moved to \\\\server\\new\\file", "tab\\there"]) if rng.random() < 0.15 else None),
                                "hidden": rng.random() < 0.08})
             cut = rng.randint(1, len(fields)) if rng.random() < 0.4 else len(fields)
             d = {"kind": k, "name": t["name"], "fields": fields[:cut]}
